@@ -468,10 +468,10 @@ InsC == Mod("inshdr", "X-Verif-C", "three", 3)
 Quar == Mod("quar", "verif says spam", "", 0)
 ModSets == <<
   <<>>, <<AddA>>, <<Quar>>, <<AddA, Quar>>, <<Mod("chghdr", "Subject", "changed", 1)>>,
-  <<InsB>>, <<InsC>>, <<AddA, InsB>>, <<Mod("addrcpt", "<x@rcpt.test>", "", 0)>>, <<Mod("delrcpt", "<r1@rcpt.test>", "", 0)>>,
+  <<InsC>>, <<AddA, InsB>>, <<InsB>>, <<Mod("addrcpt", "<x@rcpt.test>", "", 0)>>, <<Mod("delrcpt", "<r1@rcpt.test>", "", 0)>>,
   <<Mod("chgfrom", "<b@sender.test>", "", 0)>>, <<Mod("replbody", "replaced body\r\n", "", 0)>> >>
 ModsFor(tab) == IF tab = "main" /\ Full THEN Range(ModSets)
-                ELSE IF tab \in {"main", "lib"} THEN {ModSets[k] : k \in 1..5}
+                ELSE IF tab \in {"main", "lib"} THEN {ModSets[k] : k \in 1..7}
                 ELSE {ModSets[1], ModSets[4]}
 
 AnsFor(tab) == CASE tab \in {"main"} -> AllAns
